@@ -262,16 +262,16 @@ def request_origin(q):
 def gen_rsite(rng, big=None):
     s = RSite()
     hosts = ['a.test'] + (['a.test:81'] if rng.random() < 0.5 else []) + (['a.test#443'] if rng.random() < 0.35 else [])
-    names = ['/', '/a', '/b', '/private/x', '/private/y', '/pub/z', '/p.png', '/nf', '/only-nf']
+    names = ['/', '/a', '/b', '/private/x', '/private/y', '/pub/z', '/p.png', '/nf', '/only-nf', '/s?q=1', '/s?q=2', '/s', '/t;v=1']
     for h in hosts:
         kind = rng.choice(['ok', 'ok', 'ok', 'missing', 'error', 'redirect', 'forbidden'])
         text = ''
         if kind in ('ok', 'redirect'):
             groups = []
             if rng.random() < 0.4:
-                groups.append('User-agent: wpull\n' + ''.join(rng.choice(['Disallow: /private\n', 'Disallow: /b\n', 'Allow: /private/x\nDisallow: /private\n', 'Disallow: /*.png$\n', 'Disallow:\n'])
+                groups.append('User-agent: wpull\n' + ''.join(rng.choice(['Disallow: /private\n', 'Disallow: /b\n', 'Allow: /private/x\nDisallow: /private\n', 'Disallow: /*.png$\n', 'Disallow:\n', 'Disallow: /s?q=1\n', 'Disallow: /*?q=\n', 'Allow: /s?q=2\nDisallow: /s\n', 'Disallow: /t;v\n'])
                                                                for _ in range(rng.randint(1, 2))))
-            groups.append('User-agent: *\n' + ''.join(rng.choice(['Disallow: /private\n', 'Disallow: /pub\n', 'Disallow: /a\n', 'Allow: /\n', 'Disallow: /p*g\n'])
+            groups.append('User-agent: *\n' + ''.join(rng.choice(['Disallow: /private\n', 'Disallow: /pub\n', 'Disallow: /a\n', 'Allow: /\n', 'Disallow: /p*g\n', 'Disallow: /s?\n', 'Disallow: /*?q=2$\n', 'Disallow: /*;v=\n'])
                                                       for _ in range(rng.randint(1, 2))))
             if rng.random() < 0.3:
                 groups.append('User-agent: otherbot\nDisallow: /\n')
